@@ -327,6 +327,13 @@ func (c *ClientConn) Receive(reader io.Reader) error {
 // If an unprepared error is encountered it attempts to prepare the query on the connection and re-execute the original
 // request.
 func (c *ClientConn) maybePrepareAndExecute(request Request, raw *frame.RawFrame) bool {
+	if _, ok := request.(*prepareRequest); ok {
+		// An error response to a re-prepare, an "unprepared" error included, is the result of that prepare request. It
+		// moves the original request to the next node. Preparing again for it would re-execute the prepare request
+		// itself, which is not possible.
+		return false
+	}
+
 	// The error has to be decoded to be recognized: the body may be compressed and the error code may be preceded by a
 	// tracing ID, warnings or a custom payload, so it can't be read from a fixed offset of the raw body.
 	frm, err := c.codec.ConvertFromRawFrame(raw)
